@@ -27,7 +27,8 @@ RULE = ("generated: variant in {XX without stored server key, IK with the right 
         "phone / push name / passive flag, chunk sizes for every server byte string (incl. 1-byte chunks), 0-3 server stanzas coalesced "
         "with the handshake reply, 0-4 stanzas in each direction afterwards, a schedule of up to 200 choices for the interleaving of "
         "handshake worker and network thread, a history prefix of 0-2 attempts cut off before / during (after the client hello) / "
-        "after the handshake followed by a reconnect, and optionally a corrupted server reply. Non-trivial = a handshake message "
+        "after the handshake (closed by the peer, or closed on request of the layer above from inside the delivery of a stanza that shares "
+        "its read with the beginning of a further frame) followed by a reconnect, and optionally a corrupted server reply. Non-trivial = a handshake message "
         "split into >= 2 chunks, or a frame coalesced with the handshake reply, or a reconnect in the history. "
         "Distinct = distinct canonical JSON.")
 ASSUMPTIONS = [
@@ -143,6 +144,23 @@ def _run(case, out, rig, server, cfg, variant, phone):
             if rig.current is not None and rig.current.up:
                 rig.current.inbox.put(("close",))
             rig.run()
+        elif cut == "after_inside_delivery":
+            # logged in; one read carries a stanza on which the layer above asks for a disconnect (as the auth layer does on
+            # <failure>) followed by the first bytes of a further frame that is never completed
+            probs = rig.login(chunker)
+            if probs or server.state != "transport":
+                out.fail("handshake", "prefix:handshake_failed", {"problems": [str(p) for p in probs], "state": server.state,
+                                                                  "stuck": rig.stuck_tasks()})
+                return out
+            rig.top.disconnect_on_tag = "failure"
+            server.send_frame(R.encode(("failure", {"reason": "401"}, None)))
+            server.out += (b"\x00\x00\x20" + b"\xab" * 32)[:1 + (case.get("after_client", 0) * 3 + k) % 9]
+            rig.deliver(server.take_out())
+            rig.run()
+            rig.top.disconnect_on_tag = None
+            if rig.current is not None and rig.current.up:
+                out.fail("handshake", "prefix:disconnect_request_ignored", {})
+                return out
         rig.post("loop")
         rig.run()
         server.reset()
@@ -319,7 +337,7 @@ def case_strategy():
             "coalesced": draw(st.integers(0, 3)),
             "after_server": draw(st.integers(0, 4)),
             "after_client": draw(st.integers(0, 4)),
-            "prefix": draw(st.lists(st.sampled_from(["before", "during", "during_partial", "after"]), min_size=0, max_size=2)),
+            "prefix": draw(st.lists(st.sampled_from(["before", "during", "during_partial", "after", "after_inside_delivery"]), min_size=0, max_size=2)),
             "corrupt": draw(st.sampled_from([False, False, False, False, True])),
             "choices": draw(st.lists(st.integers(0, 5), min_size=n, max_size=n)),
         }
@@ -333,7 +351,7 @@ def case_strategy():
 def _enum_basic():
     for variant in ("XX", "IK", "IK_stale"):
         for chunks in ([], [1], [7, 40]):
-            for prefix in ([], ["before"], ["during"], ["during_partial"], ["after"]):
+            for prefix in ([], ["before"], ["during"], ["during_partial"], ["after"], ["after_inside_delivery"]):
                 yield {"sub": "login", "variant": variant, "phone": "4915112345", "passive": variant == "XX", "pushname": None, "edge": None,
                        "chunks": chunks, "coalesced": 2, "after_server": 2, "after_client": 2, "prefix": prefix, "corrupt": False, "choices": []}
         yield {"sub": "login", "variant": variant, "phone": "12025550100", "passive": False, "pushname": "Zoë", "edge": "0802100118",
